@@ -243,16 +243,35 @@ def default_event():
     return OsLogEvent('', '', '', 0, 0, 0, b'', b'', datetime.fromtimestamp(0, tz=timezone.utc), {})
 
 
+_ORDER = random.Random(20261003)
+
+
+def reorder(x):
+    """the same record with the keys of every dictionary in ANOTHER order (a record is a set of key / value pairs: a writer
+    that does not sort its keys - CoreFoundation, a hand-made record - lists them in any order); lists keep their order"""
+    if isinstance(x, dict):
+        ks = list(x)
+        how = _ORDER.randrange(4)
+        if how == 1:
+            ks.reverse()
+        elif how >= 2:
+            _ORDER.shuffle(ks)
+        return {k: reorder(x[k]) for k in ks}
+    if isinstance(x, list):
+        return [reorder(v) for v in x]
+    return x
+
+
 def decode_direct(lw, raw):
     from pykdebugparser.os_log_event import OsLogEvent
-    return OsLogEvent.from_raw_log_event(dict(raw), dict(lw.strings))
+    return OsLogEvent.from_raw_log_event(reorder(raw), dict(lw.strings))
 
 
 def decode_via_file(lw, raw):
     from pykdebugparser.kd_buf_parser import KdBufParser
     from pykdebugparser.os_log_event import OsLogEvent
     blocks = [(E.TAG_LOG_STRINGS, plistlib.dumps({'StringIndex': {t: i for i, t in lw.strings.items()}}, fmt=plistlib.FMT_BINARY)),
-              (E.TAG_LOG_EVENTS, plistlib.dumps({'Events': [raw]}, fmt=plistlib.FMT_BINARY))]
+              (E.TAG_LOG_EVENTS, plistlib.dumps({'Events': [reorder(raw)]}, fmt=plistlib.FMT_BINARY, sort_keys=False))]
     blob, _ = E.encode_v3([], [[]], blocks, fill1=b'ss', fill2=b'', fill3=b'')
     items = [x for x in KdBufParser({}, {}).parse(io.BytesIO(blob)) if isinstance(x, OsLogEvent)]
     if len(items) != 1:
